@@ -11,3 +11,21 @@ func init() {
 
 // VerifResetIDSeq resets the global id sequence (plain-mode harnesses).
 func VerifResetIDSeq() { base64IDSeq = 0 }
+
+// VerifSessionIDs lists the live session ids without locking (call when nothing else runs).
+func (s *Server) VerifSessionIDs() []string {
+	ids := make([]string, 0, len(s.store.sockets))
+	for id := range s.store.sockets {
+		ids = append(ids, id)
+	}
+	sortStrings(ids)
+	return ids
+}
+
+func sortStrings(a []string) {
+	for i := 1; i < len(a); i++ {
+		for j := i; j > 0 && a[j] < a[j-1]; j-- {
+			a[j], a[j-1] = a[j-1], a[j]
+		}
+	}
+}
